@@ -114,7 +114,9 @@ LEVEL_TEXT = ('Proved in Lean for every fault plan (unbounded hook lists, any ou
 LEVEL_NOTE = ('Trusted: Lean kernel (axioms propext, Classical.choice, Quot.sound only); the hand model '
               'lean/CpModel/{Hooks,Pipeline,Wsgi}.lean as validated by the differential run; the harness. Header contents '
               'are outside the model.')
-RULE = ('stream 0 (boundary): B-plans = body shape (bytes, empty, str, None, non-iterable, list, tuple, generator, iterator '
+RULE = ('every failing site x class of the exception (ordinary: 16 builtin / private classes with the marker as args[0]; '
+        'control flow: InternalRedirect, HTTPRedirect, HTTPError, NotFound at the late sites); '
+        'stream 0 (boundary): B-plans = body shape (bytes, empty, str, None, non-iterable, list, tuple, generator, iterator '
         'object, iterable, file-like) x item types (bytes, b\'\', str, int, raise; up to 3-4 items) x failure at exhaustion x '
         'close() absent / ok / raising / needing an argument (generator: finally raises) x response.stream x tools (none, '
         'encode, gzip, encode+gzip, etags) x GET/HEAD x explicit Content-Length x no-body status x tampered status / '
@@ -360,7 +362,7 @@ def demand_5xx_b(plan):
         return None
     if sh == 'nonit':
         return 'the handler returned a non-iterable body'
-    if sh in bd.ITERATING and plan.get('xk', 'ex') == 'ex':
+    if sh in bd.ITERATING and plan.get('xk', 'ex') not in bd.XKINDS[1:]:
         # (a control-flow exception raised while the body is collapsed is an instruction to the request layer -
         # redirect, 404 - not an unexpected failure)
         fails = ('x' in items or (b['end'] and sh != 'gen') or (sh == 'gen' and b['close'] == 'raise')
@@ -625,6 +627,30 @@ def single_fault_plans(quick):
     return plans
 
 
+def class_fault_plans():
+    """Every site x every class of the builtin hierarchy CherryPy itself catches / uses internally, each exception
+    carrying the marker as args[0], tracebacks off (and on, for the comparison with the model): the handler, the body
+    iterator at collapse / flush / stream time, every hook point, error_response, the namespace handler, the dispatcher,
+    the body processor."""
+    P, B = pc.base_plan, pc.base_page
+    plans = []
+    for cls in XCLS:
+        for tb in (0, 1):
+            pages = [B(handler=['ex', 'bytes', None], tb=tb), B(handler=['ok', 'gen1', None], tb=tb),
+                     B(handler=['ok', 'gen0', 204], tb=tb), B(handler=['ok', 'gen1', 304], tb=tb, stream=1),
+                     B(handler=['ok', 'gen1', None], tb=tb, stream=1), B(dispatch='ex', tb=tb), B(ns='ex', tb=tb),
+                     B(handler=['ex', 'bytes', None], errResp='ex', tb=tb), B(handler=['ex', 'bytes', None], errPage='cbOk', tb=tb),
+                     B(handler=['ex', 'bytes', None], errPage='tmplFail', tb=tb)]
+            for p in range(8):
+                h = ['ex', 'bytes', None] if p in (6, 7) else ['ok', 'bytes', None]
+                pages.append(B(hooks=[[p, 1, 50, 0, 'ex']], handler=h, tb=tb))
+                pages.append(B(hooks=[[p, 1, 50, 1, 'ex'], [p, 2, 60, 1, 'ok']], handler=h, tb=tb))
+            for pg in pages:
+                plans.append(P([pg], gtb=tb, xcls=cls))
+            plans.append(P([B(body='ex', tb=tb)], meth='post', gtb=tb, xcls=cls))
+    return plans
+
+
 def in_known_class(plan):
     """Plans in a recorded known-finding class are exercised only through the witness replay (DESIGN 1c)."""
     return any(pg['errPage'] == 'cbFail' and not pg['tb'] for pg in plan['pages'])
@@ -706,17 +732,23 @@ def _observe_chunk(plans):
 
 
 GENX = ['ir0', 'ir1', 'hr303', 'he404', 'he500']
+XCLS = [k for k in sorted(pc.EX_CLASSES) if k != 'ProbeError']
 
 
 def plan_line(plan):
     """pc.plan_line plus the class of what a streamed generator raises (`genx=<page>:<OUT>,...`; the C01 driver drops
     the token: once the body is being streamed the model has one answer for every Exception subclass)."""
     gx = ['%d:%s' % (i, pg['genx']) for i, pg in enumerate(plan['pages']) if pg.get('genx')]
-    return pc.plan_line(plan) + (' genx=' + ','.join(gx) if gx else '')
+    return (pc.plan_line(plan) + (' genx=' + ','.join(gx) if gx else '')
+            + (' xcls=%s' % plan['xcls'] if plan.get('xcls') else ''))
 
 
 def add_genx(plan, rng):
-    """Streamed pages whose generator fails: now and then it raises one of CherryPy's control-flow exceptions."""
+    """Streamed pages whose generator fails: now and then it raises one of CherryPy's control-flow exceptions; and the
+    class of what the outcome 'ex' raises at every site of the plan ranges over the builtin hierarchy (plan key 'xcls':
+    the model has one answer for every ordinary Exception class)."""
+    if rng.random() < 0.6:
+        plan['xcls'] = rng.choice(XCLS)
     for pg in plan['pages']:
         # (no status set by the handler: a bodiless status makes finalize consume the body inside the request layer,
         # where these classes are instructions - redirect, error page -, not failures)
@@ -1044,6 +1076,9 @@ def _run(ctx):
     ctx.extra['exhaustive_single_fault_placements'] = len(singles)
     if _stop(ctx):
         return
+    check_plans(ctx, class_fault_plans(), label='class-x-site')
+    if _stop(ctx):
+        return
     n = ctx.budget(2500, 120000)
     plans = []
     while len(plans) < n:
@@ -1072,6 +1107,8 @@ def search(ctx, around=None):
     if ctx.oracle_failures:
         return
     check_plans(ctx, single_fault_plans(False), compare=False, label='search')
+    if not ctx.oracle_failures:
+        check_plans(ctx, class_fault_plans(), compare=False, label='search')
     if not ctx.oracle_failures:
         plans = []
         while len(plans) < ctx.budget(12000, 60000):
